@@ -262,7 +262,7 @@ def obligations(cx):
         sse = lift(0)
         ok = True
         mixs = [c[1]['mixture'] for c in r.ex.calls if c[0] == 'get_partial_pressures']
-        okm = len(mixs) == 4 and all(m.f['first_component'] is comps.items[0] and m.f['second_component'] is comps.items[1] and m.f['nrtl_params'] is None for m in mixs)
+        okm = len(mixs) >= 2 and all(m.f['first_component'] is comps.items[0] and m.f['second_component'] is comps.items[1] and m.f['nrtl_params'] is None for m in mixs)
         cx.ob("vle-objective.path%d.mixture-built-from-the-data-components-and-the-parameters" % pi, [], blit(okm), kind='paths', function='uniquac_fitting.py:objective')
         if okm:
             up = mixs[0].f['uniquac_params']
